@@ -189,6 +189,33 @@ def power(a, b):
     return ('pow', a, b)
 
 
+# ------------------------------------------------------------------------------------------ size budget
+_SIZE = {}
+SIZE_CAP = 10 ** 9
+MAX_SEEN = [0]
+
+
+def tsize(t):
+    """number of nodes of a term counted as a tree (shared sub-terms counted each time they occur), memoised per tuple object"""
+    if not isinstance(t, tuple):
+        return 1
+    k = id(t)
+    hit = _SIZE.get(k)
+    if hit is not None and hit[0] is t:
+        return hit[1]
+    n = 1
+    for x in t:
+        if isinstance(x, tuple):
+            n += tsize(x)
+            if n > SIZE_CAP:
+                n = SIZE_CAP
+                break
+    _SIZE[k] = (t, n)
+    if n > MAX_SEEN[0]:
+        MAX_SEEN[0] = n
+    return n
+
+
 # ------------------------------------------------------------------------------------------ kinds
 def is_int(t):
     """Integer-valued scalar (so that int(t) is the identity)."""
